@@ -91,13 +91,19 @@ func (catWorld) Gen(seed uint64, tier string) core.Scenario {
 				open = true // (may fail; the executor's model follows the real outcome)
 			case 1:
 				if listening {
+					// a second Listen while a listener is active is refused by this driver
+					// ("listener already set"); a refused call must change nothing
+					if r.Chance(1, 4) {
+						s.InOps = append(s.InOps, CatOp{Op: "listen"})
+						nListens++
+					}
 					continue
 				}
 				s.InOps = append(s.InOps, CatOp{Op: "listen"})
 				if open {
 					listening = true
-					nListens++
 				}
+				nListens++
 			case 2:
 				s.InOps = append(s.InOps, CatOp{Op: "wait", N: r.PickInt(1, 5, 20, 60, 150)})
 			case 3:
@@ -105,8 +111,8 @@ func (catWorld) Gen(seed uint64, tier string) core.Scenario {
 					continue
 				}
 				op := CatOp{Op: "stop"}
-				if r.Chance(1, 6) && nListens > 1 {
-					op.N = 1 // a stale stop function
+				if r.Chance(1, 3) && nListens > 1 {
+					op.N = r.Range(1, nListens-1) // a stale stop function (of an earlier Listen)
 				}
 				s.InOps = append(s.InOps, op)
 				if op.N == 0 {
@@ -207,9 +213,6 @@ func (s *CatSc) Shrinks(try0 func(core.Scenario) bool) bool {
 		for _, op := range x.InOps {
 			switch op.Op {
 			case "listen":
-				if listening {
-					return false
-				}
 				listening = true
 				nl++
 			case "stop":
@@ -637,8 +640,18 @@ func (s *CatSc) execute(env *core.Env) (ro runOut) {
 							return err, j
 						})
 					case "stop":
-						k := len(stops) - 1 - op.N
-						if k < 0 || stops[k] == nil {
+						// the stop function of the N-th latest successful Listen
+						k, cnt := -1, 0
+						for q := len(stops) - 1; q >= 0; q-- {
+							if stops[q] != nil {
+								if cnt == op.N {
+									k = q
+									break
+								}
+								cnt++
+							}
+						}
+						if k < 0 {
 							continue
 						}
 						do("in", i, "stop", func() (error, int64) { stops[k](); return nil, int64(k + 1) })
